@@ -342,8 +342,12 @@ func randDescriptor(r *rng, kind string, budget int) *astits.Descriptor {
 		x := &astits.DescriptorVBIData{}
 		left := budget
 		for i, n := 0, r.pick(0, 1, 2, 3); i < n && left > 6; i++ {
-			s := &astits.DescriptorVBIDataService{DataServiceID: uint8(r.pick(1, 2, 4, 5, 6, 7, 1, 4))}
-			for j, k := 0, r.pick(0, 1, 2, 3, 4); j < k; j++ {
+			s := &astits.DescriptorVBIDataService{DataServiceID: uint8(r.pick(1, 2, 4, 5, 6, 7, 1, 4, 0, 3, 8, 255, r.intn(256)))}
+			reserved := s.DataServiceID == 0 || s.DataServiceID == 3 || s.DataServiceID > 7 // one reserved byte, no lines (Descriptors.tla VBIService)
+			if reserved {
+				left--
+			}
+			for j, k := 0, r.pick(0, 1, 2, 3, 4); j < k && !reserved; j++ {
 				s.Descriptors = append(s.Descriptors, &astits.DescriptorVBIDataDescriptor{FieldParity: r.boolean(), LineOffset: uint8(edge(r, 5))})
 			}
 			left -= 2 + len(s.Descriptors)
